@@ -5,12 +5,21 @@ _PROG_RULE = ("programs are generated from the case seed (1-16 task templates, 1
               "priority/hash assignments and calling conventions; a run is non-trivial if it has >=2 tasks and >=1 "
               "flush; distinct = distinct canonical event-trace digests (task steps, flush compositions, context events)")
 
+_NOTE = ("Trusted base: the harness itself (spec interpreter, service stub, monitors), CPython 3.12, qcore. Sampling, not "
+         "enumeration: a clean batch is evidence, not proof. Both the pure-Python and the Cython-compiled build of the "
+         "working tree are exercised; flush order is owned by the harness through get_priority()/__hash__ of its batches.")
+
+FIX_COMMITS = ["b5054cf", "3c17ac6"]
+
+PENDING = ["C08", "C09", "C10", "C11", "C12", "C13", "C14", "C15", "C16", "C17", "C18", "C19", "C20"]
+NOT_APPLICABLE = [{"property_id": p, "reason": "not claimed yet: check under construction in this round (deterministic simulation does apply; see DESIGN.md section 4)"} for p in PENDING]
+
 CATALOG = {
-    "C01": {"level": "exploration", "quick_cases": 1500, "quick_budget_s": 60, "rule": _PROG_RULE},
-    "C02": {"level": "fault_enumeration", "quick_cases": 2400, "quick_budget_s": 60, "rule": _PROG_RULE + "; failure positions (every step, every leaf of every yielded structure, every item key, every flush) of each fault-free base program are enumerated 8 per base program, singly and in pairs"},
-    "C03": {"level": "exploration", "quick_cases": 1500, "quick_budget_s": 60, "rule": _PROG_RULE},
-    "C04": {"level": "exploration", "quick_cases": 1500, "quick_budget_s": 60, "rule": _PROG_RULE},
-    "C05": {"level": "exploration", "quick_cases": 1500, "quick_budget_s": 60, "rule": _PROG_RULE},
-    "C06": {"level": "exploration", "quick_cases": 1500, "quick_budget_s": 60, "rule": _PROG_RULE},
-    "C07": {"level": "exploration", "quick_cases": 1500, "quick_budget_s": 60, "rule": _PROG_RULE},
+    "C01": {"level_text": 'Seeded exploration: every generated program is run on the real scheduler under several flush orders and calling conventions and compared, yield by yield, with a plain sequential depth-first evaluation of the same spec (and, for yield-only programs, with the pass/flush model). Evidence, not proof.', "level_note": _NOTE, "level": "exploration", "quick_cases": 1500, "quick_budget_s": 60, "rule": _PROG_RULE},
+    "C02": {"level_text": 'Fault enumeration: failure positions of each base program (steps, leaves of yielded structures, items, flushes) are enumerated; in-body monitors check identity of the delivered exception, sibling completion, first-in-structure-order, TypeError for non-futures, continuation after catch and the escaping instance; the reference evaluation fixes every unaffected task.', "level_note": _NOTE, "level": "fault_enumeration", "quick_cases": 2400, "quick_budget_s": 60, "rule": _PROG_RULE + "; failure positions (every step, every leaf of every yielded structure, every item key, every flush) of each fault-free base program are enumerated 8 per base program, singly and in pairs"},
+    "C03": {"level_text": 'Seeded exploration with in-body monitors (all awaited futures computed at resume, no start without an awaiter, start order of list/tuple members, no step after completion, every awaited task computed at the end) plus termination (per-case watchdog; hang = violation) and deep chains far beyond the recursion limit.', "level_note": _NOTE, "level": "exploration", "quick_cases": 1500, "quick_budget_s": 60, "rule": _PROG_RULE},
+    "C04": {"level_text": 'Seeded exploration of yield-only programs: at every before-flush event the harness proves from its own state that no task of the waited computation could run; flush compositions are compared in lockstep with the pass/flush model; single-kind tree programs must use exactly critical-path-many flushes.', "level_note": _NOTE, "level": "exploration", "quick_cases": 1500, "quick_budget_s": 60, "rule": _PROG_RULE},
+    "C05": {"level_text": 'Seeded exploration over 2-4 batch kinds with priority overrides and flush faults: per-batch flush count, pending/non-empty at flush, maximal priority among the batches consulted in that selection round, every item answered exactly once inside the before/after bracket with what the service set, event pairing also for raising flushes, no flush after the waited task completed (nested waits too).', "level_note": _NOTE, "level": "exploration", "quick_cases": 1500, "quick_budget_s": 60, "rule": _PROG_RULE},
+    "C06": {"level_text": "Seeded exploration with harness AsyncContexts in many pending tasks: strict resume/pause alternation per context on every exit path, and an activity oracle evaluated at every task step and flush from the harness' own await graph (must be active when the owner runs or dominates the running task, must be paused when the owner cannot reach it); NonAsyncContext failure iff the pass/flush model says the task is suspended for a flush inside it.", "level_note": _NOTE, "level": "exploration", "quick_cases": 1500, "quick_budget_s": 60, "rule": _PROG_RULE},
+    "C07": {"level_text": 'Seeded exploration with nested/concurrent scoped overrides: global LIFO of context activations, every scoped read compared with the set of values sequential dynamic scoping allows, and restoration of every overridden value after the computation and again after abandoned generators are finalised.', "level_note": _NOTE, "level": "exploration", "quick_cases": 1500, "quick_budget_s": 60, "rule": _PROG_RULE},
 }
